@@ -4,6 +4,7 @@ Require Extraction.
 Require Import ExtrOcamlBasic.
 From Coq Require Import List NArith Strings.String.
 From V Require Import Base.Bytes Base.Res Gen.Tables Model.Escape Spec.EscapeSpec.
+From V Require Import Model.Arena.
 Extraction Language OCaml.
 Set Extraction KeepSingleton.
 
@@ -23,4 +24,11 @@ Extraction "model.ml"
   EscapeSpec.no_pct_hex
   EscapeSpec.lex_start_tag
   EscapeSpec.utf8_valid
+  Arena.init
+  Arena.trace
+  Arena.run
+  Arena.dump
+  Arena.heap_of_dump
+  Arena.wf_b
+  Arena.acyclic_b
 .
